@@ -361,6 +361,28 @@ func legacyBlob(ent int, content []byte, ht crypto.Hash) []byte {
 	return b.Bytes()
 }
 
+// pgpFP: the fingerprint of universe entity k's primary key, or (k >= 1000) of the first subkey of entity k-1000
+func pgpFP(k int) []byte {
+	u := getUniverse()
+	if k >= 1000 {
+		return u.PGP[k-1000].Subkeys[0].PublicKey.Fingerprint
+	}
+	return u.PGP[k].PrimaryKey.Fingerprint
+}
+
+// clearsignedText: any text clear-signed by a universe entity
+func clearsignedText(ent int, text string) []byte {
+	u := getUniverse()
+	var b bytes.Buffer
+	w, err := clearsign.Encode(&b, u.PGP[ent].PrivateKey, &packet.Config{Time: func() time.Time { return time.Unix(1504657553, 0) }})
+	if err != nil {
+		return nil
+	}
+	fmt.Fprint(w, text)
+	w.Close()
+	return b.Bytes()
+}
+
 func foreignPayloadBlob(key int, ptype string, payload []byte) []byte {
 	u := getUniverse()
 	s := dsse.WrapMultiSigner(ptype, u.DSSE[key-100].sv)
@@ -1510,6 +1532,16 @@ func scenC07(g *Gen, dir string) ([]*Op, func(e *Env, i int, op *Op, obs []strin
 		signers = append(signers, k)
 		g.count("variant:foreign-payload-type")
 	case 2: // unrecognised signature format
+		if r.Chance(1, 2) {
+			// a clear-signed message by somebody whose text merely *starts like* a legacy signature
+			// ("SIFHASH:" not followed by a newline): it is not a legacy signature, so a non-legacy
+			// request has to deal with it — and it is no valid signature of the group by a supplied key
+			ent := r.Intn(len(u.PGP))
+			text := pick(r, []string{"SIFHASH:{\"version\":1}", "SIFHASH: sha256:00", "SIFHASH:", "SIFHASH:\tdeadbeef\n", "SIFHASH:\r\nabcd"})
+			ops = append(ops, &Op{Kind: "add", T: TOpt{Kind: "det"}, DI: sigObjectDI(clearsignedText(ent, text), 1, 0, 1, u.PGP[ent].PrimaryKey.Fingerprint, 0)})
+			g.count("variant:clear-signed-text-that-starts-like-a-legacy-signature")
+			break
+		}
 		ops = append(ops, &Op{Kind: "add", T: TOpt{Kind: "det"}, DI: sigObjectDI(pick(r, [][]byte{[]byte("not a signature"), {}, []byte("{}"), []byte("-----BEGIN PGP SIGNED MESSAGE-----\n")}), 1, 0, 1, nil, 0)})
 		g.count("variant:unrecognised-format")
 	case 7: // the same entity signs the group twice; the second signature's descriptor is rewritten to name somebody else
@@ -2442,8 +2474,14 @@ func scenC17(g *Gen, dir string) ([]*Op, func(e *Env, i int, op *Op, obs []strin
 			signersOf[gid] = append(signersOf[gid], ent)
 			g.count("variant:truthful-and-mislabelled-by-one-key")
 		}
+		if len(u.PGP[ent].Subkeys) > 0 && r.Chance(1, 3) {
+			// … names a *subkey* of the very entity that signed (its encryption subkey, say): still not
+			// the key that issued the signature
+			other = 1000 + ent
+			g.count("variant:descriptor-names-a-subkey-of-the-signer")
+		}
 		// sign, then re-add the signature bytes under a descriptor naming `other`
-		ops = append(ops, &Op{Kind: "resign", S: SOpts{PGP: ent, Groups: []uint32{gid}, T: TOpt{Kind: "det"}, NoSalt: true}, FP: u.PGP[other].PrimaryKey.Fingerprint})
+		ops = append(ops, &Op{Kind: "resign", S: SOpts{PGP: ent, Groups: []uint32{gid}, T: TOpt{Kind: "det"}, NoSalt: true}, FP: pgpFP(other)})
 		signersOf[gid] = append(signersOf[gid], other)
 		forged = true
 		g.count("variant:descriptor-names-other-key")
@@ -2552,7 +2590,7 @@ func scenC17(g *Gen, dir string) ([]*Op, func(e *Env, i int, op *Op, obs []strin
 		for _, gid := range tasks {
 			per := map[string]bool{}
 			for _, ent := range signersOf[gid] {
-				per[hex.EncodeToString(u.PGP[ent].PrimaryKey.Fingerprint)] = true
+				per[hex.EncodeToString(pgpFP(ent))] = true
 			}
 			for fp := range per {
 				count[fp]++
